@@ -63,7 +63,7 @@ CLAIMED = {
          "exploration", "Random (context, subexpression) pairs whose trees differ only at the hole; the context evaluated with the bracketed subexpression and with its value as placeholder must agree bit for bit.",
          "no oracle; pairs where the hole changes implicit-product eligibility are excluded as the statement says", "§5 C20"),
 }
-FUZZ = ["C01","C02","C03","C04","C05","C06","C07","C08","C09","C10","C12","C13","C14","C20"]
+FUZZ = ["C01","C02","C03","C04","C05","C06","C07","C08","C09","C10","C12","C13","C14","C18","C20"]
 PENDING_REASON = "check not built yet in this round (planned: DESIGN.md §5)"
 props=[json.loads(l)["id"] for l in open("/verif/properties.jsonl")]
 hooks_commit = subprocess.run(["git","-C","/repo","log","--format=%H","--grep=verif hooks"],capture_output=True,text=True).stdout.split()
